@@ -43,6 +43,15 @@ CANARIES = [
     ('c12-collect-constants', 'C12', 'mindsdb_sql/planner/utils.py', "        if isinstance(node, ast.Parameter):\n            params.append(node)\n            return node",
      "        if isinstance(node, (ast.Parameter, ast.NullConstant)):\n            params.append(node)\n            return node", 'C12.collect'),
     ('c12-prepare-no-copy', 'C12', 'mindsdb_sql/planner/query_prepare.py', "        query = copy.deepcopy(query)\n\n        params = utils.get_query_params(query)", "        params = utils.get_query_params(query)", 'C12.prepare'),
+    ('c18-drop-parentheses', 'C18', 'mindsdb_sql/parser/ast/select/identifier.py',
+     "        identifier.alias = deepcopy(self.alias)\n        identifier.parentheses = self.parentheses\n        if hasattr(self, 'sub_select'):\n            identifier.sub_select = deepcopy(self.sub_select)\n        return identifier\n\n    def __deepcopy__",
+     "        identifier.alias = deepcopy(self.alias)\n        if hasattr(self, 'sub_select'):\n            identifier.sub_select = deepcopy(self.sub_select)\n        return identifier\n\n    def __deepcopy__", 'C18.copy.Identifier.__copy__'),
+    ('c18-share-subselect', 'C18', 'mindsdb_sql/parser/ast/select/identifier.py',
+     "identifier.sub_select = deepcopy(self.sub_select)\n        return identifier\n", "identifier.sub_select = self.sub_select\n        return identifier\n", 'C18.copy.Identifier.__copy__.adhoc'),
+    ('c18-new-adhoc-attr', 'C18', 'mindsdb_sql/planner/plan_join.py',
+     "                node2.sub_select = node\n", "                node2.sub_select = node\n                node2.origin_tag = name\n", 'C18.copy.Identifier'),
+    ('c18-plan-eq-none', 'C18', 'mindsdb_sql/planner/query_plan.py', "        #     return False\n        return True\n", "        #     return False\n", 'C18.plan.eq'),
+    ('c18-eq-truthy', 'C18', 'mindsdb_sql/planner/steps.py', "                return False\n\n        return True\n\n    def __repr__", "                return False\n\n        return 1\n\n    def __repr__", 'C18.eq.refl.PlanStep'),
 ]
 
 
